@@ -136,6 +136,33 @@ Definition sample (s : spectrum) (pts : list K) (n : uname) : result (list K) :=
 Definition sample_grid (s : spectrum) (n : uname) : result (list K) :=
   rbind (to1 s n) (fun s' => Ok (map (sample_at (s_wave s') (s_value s')) (s_wave s'))).
 
+(* ---- Spectrum.to as it leaves the object ----
+   the wave setter (called by `self.wave = self.wave * factor`) re-validates the wavelengths: all > 0,
+   sorted, no two equal - otherwise ValueError before anything is assigned *)
+Fixpoint strictly_increasing (ws : list K) : bool :=
+  match ws with
+  | w0 :: ((w1 :: _) as t) => negb (leb w1 w0) && strictly_increasing t
+  | _ => true
+  end.
+Definition wave_ok (ws : list K) : bool :=
+  forallb (fun w => negb (leb w f0)) ws && strictly_increasing ws.
+Definition to1c (s : spectrum) (n : uname) : result spectrum :=
+  rbind (to1 s n) (fun s' => if wave_ok (s_wave s') then Ok s' else Err ValueError).
+(* the loop `for unit in args`: on the first refused unit the exception propagates; the object keeps the
+   conversions made for the units before it and nothing of the refused one or of those after it *)
+Fixpoint to_st (s : spectrum) (args : list uname) : spectrum * option errkind :=
+  match args with
+  | [] => (s, None)
+  | n :: r => match to1c s n with Ok s' => to_st s' r | Err e => (s, Some e) end
+  end.
+
+(* the same loop as a result (no object state): Ok of the final object, or the first exception *)
+Fixpoint toc (s : spectrum) (args : list uname) : result spectrum :=
+  match args with
+  | [] => Ok s
+  | n :: r => rbind (to1c s n) (fun s' => toc s' r)
+  end.
+
 (* ---- Planck's law ---- *)
 Definition pow5 (x : K) : K := (x * x * x * x * x)%F.
 (* coef*H*C**2/(wave**5*(np.exp(H*C/(wave*K*temp))-1)), wave in metres: the SI function *)
